@@ -191,3 +191,14 @@ Theorem C07_src_parblock_copy_reports_every_thread : forall walk disp,
 Proof. exact x_parblock_copy_ok_iff. Qed.
 Print Assumptions C07_src_parfile_copy_reports_every_thread.
 Print Assumptions C07_src_parblock_copy_reports_every_thread.
+
+(* ---- main(), translated (the update loop and the join): an Error update anywhere in the stream makes the exit status
+   non-zero whatever the driver thread returns — the only report of a failed block job of parblock ---- *)
+Theorem C07_src_error_update_reaches_exit : forall s1 e s2 handle,
+  x_main_collect (s1 ++ XuError e :: s2) handle <> None.
+Proof. exact x_error_update_reaches_exit. Qed.
+Theorem C07_src_exit_status : forall stats handle,
+  x_main_collect stats handle = None <-> has_error stats = false /\ handle = None.
+Proof. exact x_main_collect_ok_iff. Qed.
+Print Assumptions C07_src_error_update_reaches_exit.
+Print Assumptions C07_src_exit_status.
